@@ -77,17 +77,27 @@ Definition nontriv_def (d : ddef) : bool :=
 
 (* suite det: (source detections, source condition, impl to_dict, impl to_dict of the reloaded object,
                query of the source, query of the reloaded) *)
-Definition judge_det (c : list (str * ddef) * cval * outcome plainsec * outcome plainsec * str * str) : N :=
-  let '(defs, cond, d1, d2, q1, q2) := c in
-  let r := m_load defs cond in
+(* pur = (argument of the first from_dict after the call, the written dict after it was loaded,
+          to_dict of a second load of that same dict): from_dict must leave its argument alone *)
+Definition judge_det (c : list (str * ddef) * cval * outcome plainsec * outcome plainsec * str * str
+                          * (plainsec * outcome plainsec * outcome plainsec)) : N :=
+  let '(defs, cond, d1, d2, q1, q2, pur) := c in
+  let '(a1, w1, d2b) := pur in
+  let proc := from_dict_proc apply_unit (defs, cond) in
+  let r := fst proc in
   let d1m := obind r m_plain in
   let d2m := obind d1m (fun x => obind (m_load (fst x) (snd x)) m_plain) in
   (* SigmaErr 50: the implementation could not reload its own dict because a modifier refused the
      written value; modifiers are abstract in the model, so this outcome is not compared (the oracle rejects it) *)
   let agree := out_eqb plainsec_eqb d1m d1 &&
                (match d2 with SigmaErr 50 => true | _ => out_eqb plainsec_eqb d2m d2 end) in
+  let w1m := match d1m with Ok x => Ok (snd (from_dict_proc apply_unit x)) | e => e end in
+  let agree := agree && plainsec_eqb (snd proc) a1 && out_eqb plainsec_eqb w1m w1 &&
+               (match d2b with SigmaErr 50 => true | _ => out_eqb plainsec_eqb d2m d2b end) in
+  let pure := plainsec_eqb (defs, cond) a1 && out_eqb plainsec_eqb w1 d1 &&
+              (match d1 with Ok _ => out_eqb plainsec_eqb d2b d2 | _ => true end) in
   let dom := match r, d1m with Ok r', Ok _ => dom_dets r' | _, _ => false end in
-  bits agree (spec_rt d1 d2 q1 q2) dom (existsb (fun nd => nontriv_def (snd nd)) defs).
+  bits agree (spec_rt d1 d2 q1 q2 && pure) dom (existsb (fun nd => nontriv_def (snd nd)) defs).
 
 (* suite hist: the object state after one pipeline transformation (read from the implementation:
    fields, modifier classes, original values or None), impl to_dict, query of the transformed object,
@@ -153,13 +163,23 @@ Definition sub_keys (kind : N) (shapes custom : list N) (flag : bool) : list N :
   if N.eqb kind 1 then [10; 11; 12; 13; 14] ++ (if flag then [15] else []) ++ [16]
   else present [0; 1; 2; 3] shapes ++ custom.
 
+(* pur: for every from_dict call the canonical JSON of its argument before and after the call (source
+   document, written dict, written dict on its second load); again: to_dict after loading the SAME written
+   dict a second time and after dumping that same dict as YAML once it had been loaded.  The model
+   (from_dict leaves its argument alone, loading is a function of the document) predicts after = before. *)
+Definition args_unchanged (pur : list (str * str)) : bool := forallb (fun p => str_eqb (fst p) (snd p)) pur.
 Definition judge_doc (c : N * list (N * N) * list N * list N * (list N * list N * bool * list N)
-                          * outcome str * outcome str * outcome str * str * str * str) : N :=
-  let '(kind, shapes, custom, keys, sub, j1, j2, jy, q1, q2, qy) := c in
+                          * outcome str * outcome str * outcome str * str * str * str
+                          * (list (str * str) * list (outcome str))) : N :=
+  let '(kind, shapes, custom, keys, sub, j1, j2, jy, q1, q2, qy, purity) := c in
+  let '(pur, again) := purity in
   let '(sshapes, scustom, sflag, skeys) := sub in
   let agree := match j1 with
                | Ok _ => list_eqb N.eqb (meta_keys kind shapes custom) keys
                          && list_eqb N.eqb (sub_keys kind sshapes scustom sflag) skeys
                | _ => true end in
-  bits agree (spec_doc j1 j2 jy q1 q2 qy) false
+  let agree := agree && args_unchanged pur in
+  let pure := args_unchanged pur &&
+              match j1 with Ok _ => forallb (fun o => out_eqb str_eqb o j1) again | _ => true end in
+  bits agree (spec_doc j1 j2 jy q1 q2 qy && pure) false
        (Nat.ltb 3 (length keys)).
